@@ -38,3 +38,50 @@ def handshake (serverRoots clientRoots : Nat) (client server : Identity) : Bool 
   sameAlpn && serverAccepts serverRoots client && clientAccepts clientRoots server
 
 end Selium.Tls
+
+/-! ### the bundled certificate generator (`tools/src/commands/gen_certs`)
+
+What the generator puts into the CA, the server and the client certificate (regenerated from its source), and
+what rustls / webpki require of a certificate at time `now` (seconds since 1970): issued by a trusted CA, the right
+extended key usage, not a CA itself, and a validity period that contains `now` and does not start before 1970
+(webpki cannot represent earlier dates and rejects the certificate as badly encoded). -/
+namespace Selium.Tls
+open Selium.Gen.Tls
+
+structure GenCert where
+  issuer : Nat
+  isCa : Bool
+  san : Option String
+  eku : Option Eku
+  notBefore : Int
+  notAfter : Int
+  deriving Repr
+
+/-- rcgen's default validity (`date_time_ymd(1975, 1, 1)` … `date_time_ymd(4096, 1, 1)`), used with `--no-expiry` -/
+def rcgenNotBefore : Int := 157766400
+def rcgenNotAfter : Int := 67090118400
+
+/-- `ValidityRange::new(days)` around `now` -/
+def validity (noExpiry : Bool) (days : Nat) (now : Int) : Int × Int :=
+  if noExpiry && genNoExpirySkipsValidity then (rcgenNotBefore, rcgenNotAfter)
+  else ((if genValiditySymmetric then now - days * genSecondsInDay else now), now + days * genSecondsInDay)
+
+/-- the CA certificate and an entity certificate (server / client) as `CertGen::generate` makes them; `ca` names the
+    CA's key -/
+def genCa (ca : Nat) (noExpiry : Bool) (now : Int) : GenCert :=
+  { issuer := ca, isCa := genCaIsCa, san := none, eku := none,
+    notBefore := (validity noExpiry genCaValidityDays now).1, notAfter := (validity noExpiry genCaValidityDays now).2 }
+
+def genEntity (ca : Nat) (eku : Eku) (noExpiry : Bool) (now : Int) : GenCert :=
+  { issuer := if genEntitySignedByCa then ca else ca + 1, isCa := genEntityIsCa, san := some genEntitySan, eku := some eku,
+    notBefore := (validity noExpiry genEntityValidityDays now).1, notAfter := (validity noExpiry genEntityValidityDays now).2 }
+
+def validAt (now : Int) (c : GenCert) : Bool := decide (0 ≤ c.notBefore) && decide (c.notBefore ≤ now) && decide (now ≤ c.notAfter)
+
+/-- the identity a peer has in the eyes of rustls when it presents `leaf` issued under `caCert`, in the role `role` -/
+def presented (now : Int) (role : Eku) (caCert leaf : GenCert) : Identity :=
+  if validAt now caCert && caCert.isCa && validAt now leaf && !leaf.isCa && leaf.eku == some role then
+    .signedBy leaf.issuer (leaf.san.getD "")
+  else .selfSigned     -- unusable: refused by everybody
+
+end Selium.Tls
